@@ -59,6 +59,10 @@ def _fault_catalogue_():
             seen.add(fam)
             cat.append((fam, i))
     cat.append(('cleanup', -2))
+    # double faults: a failing step AND a failing cleanup instruction (hard error)
+    for fam in ('setup-main', 'execute', 'ba-main', 'assert-main'):
+        i = [j for j, (c, f_) in enumerate(cells) if f_ == fam][0]
+        cat.append((fam + '+cleanup', -100 - i))
     return n, cells, cat
 
 
@@ -66,7 +70,10 @@ def _pre_k1(kind: int, keep: bool, xsel: int, mis: int) -> bool:
     from harness import C01
     n, cells, cat = _fault_catalogue()
     fam, idx = cat[ob.case()['fault']]
-    if idx >= 0:
+    if idx <= -100:
+        if kind not in C01.valid_kinds(cells[-100 - idx][0]):
+            return False
+    elif idx >= 0:
         if kind not in C01.valid_kinds(cells[idx][0]):
             return False
     elif idx == -2:
@@ -76,6 +83,8 @@ def _pre_k1(kind: int, keep: bool, xsel: int, mis: int) -> bool:
         return False
     if not (0 <= xsel < len(EXIT_CODES) and 0 <= mis < len(MISBEHAVIOURS)):
         return False
+    if idx <= -100 and (mis != 0 or xsel != 0):
+        return False  # double faults: without misbehaviour
     if ob.case().get('tier') == 'quick' and mis != 0 and idx != -1:
         # quick tier: misbehaviours only together with the first applicable kind of ending
         first = C01.valid_kinds(cells[idx][0])[0] if idx >= 0 else 2
@@ -112,10 +121,12 @@ def run(fault_idx: int, kind: int, keep: bool, xsel: int, mis: int) -> Facts:
     f.env_marker = 'VSYM_C04_MARKER'
     state = dict(first=True, atc_done=False, wrote_user_tmp=False)
 
+    first_idx = (-100 - idx) if idx <= -100 else idx
+
     def kind_of(cell) -> int:
         if cell[0] == 'cleanup' and cell[1] == 'main':
-            return kind if idx == -2 else 0
-        if idx >= 0 and cell == cells[idx][0]:
+            return kind if idx == -2 else 2 if idx <= -100 else 0
+        if first_idx >= 0 and cell == cells[first_idx][0]:
             return kind
         return 0
 
@@ -214,7 +225,10 @@ def run(fault_idx: int, kind: int, keep: bool, xsel: int, mis: int) -> Facts:
     tc = xh.stub_test_case(plan, n, None)
     r = xh.execute(plan, tc, is_keep_sandbox=keep, after=after)
     f.run = r
-    x = C01.expected(n, idx if idx >= 0 else -1, kind if idx >= 0 else 0, 0 if idx == -2 else -1, kind if idx == -2 else 0, 0)
+    if idx <= -100:
+        x = C01.expected(n, first_idx, kind, 0, 2, 0)
+    else:
+        x = C01.expected(n, idx if idx >= 0 else -1, kind if idx >= 0 else 0, 0 if idx == -2 else -1, kind if idx == -2 else 0, 0)
     f.expected = x
     return f
 
@@ -259,7 +273,7 @@ def _pre_k2(kind: int) -> bool:
         return kind in C01.valid_kinds(cells[idx][0])
     if idx == -2:
         return kind in (2, 3, 4)
-    return kind == 0
+    return kind == 0 and idx == -1
 
 
 def k2_keep_reports_path(kind: int) -> bool:
@@ -284,6 +298,8 @@ def obligations(tier: str) -> List[Ob]:
     n, cells, cat = _fault_catalogue()
     obs = []
     for i, (fam, idx) in enumerate(cat):
+        if idx <= -100:
+            continue
         obs.append(Ob(
             name='K2:keep-path:%s' % fam, fn='k2_keep_reports_path', case=dict(fault=i), kernel='K2', selector=True,
             bound='stub case with 1 instruction per phase; execution ends at %s with every applicable kind; --keep' % (
@@ -299,7 +315,8 @@ def obligations(tier: str) -> List[Ob]:
             name='K1:lifecycle:%s' % fam, fn='k1_lifecycle', case=dict(fault=i, tier=tier), kernel='K1', selector=True,
             bound='stub case with 1 instruction per phase; execution ends at %s with every applicable kind; --keep on/off; '
                   '5 exit codes of the action (where it completes); a misbehaving first setup instruction out of %s' % (
-                      'the end' if idx == -1 else 'cleanup main' if idx == -2 else '%s/%s' % cells[idx][0][:2],
+                      'the end' if idx == -1 else 'cleanup main' if idx == -2 else
+                      ('%s/%s AND cleanup main (hard error)' % cells[-100 - idx][0][:2]) if idx <= -100 else '%s/%s' % cells[idx][0][:2],
                       list(MISBEHAVIOURS)),
             timeout=1200, real=REAL,
             stubs=('stub instructions / actor (public base classes)', 'deterministic sandbox resolver under a scratch dir'),
